@@ -3,7 +3,7 @@
    runner and by vm_compute inside Coq (Cases_*.v). *)
 From Coq Require Import List NArith ZArith Bool String.
 From Coq.Strings Require Import Byte.
-From OAP Require Import Base.Bytes Base.Res Base.Text Gen.Consts Model.Handshake Model.Metadata Model.Header Model.Frame Model.Stream Model.World Model.Ids Model.Waiters Model.Dispatch Model.WritePath Model.Recovery Model.Keepalive.
+From OAP Require Import Base.Bytes Base.Res Base.Text Gen.Consts Model.Handshake Model.Metadata Model.Header Model.Frame Model.Stream Model.World Model.Ids Model.Waiters Model.Dispatch Model.WritePath Model.Recovery Model.Keepalive Model.WsBridge.
 Import ListNotations.
 Local Open Scope N_scope.
 
@@ -585,6 +585,49 @@ Definition run_ka (op : bytes) (args : list bytes) : bytes :=
     | _ => bad end
   else bad.
 
+(* ---- transports (C20) ----
+   wb.tcp / wb.ws <item> ... [hb:<bodyhex>=<id|->]
+   items: r.<cmd>.<rid>.<status>.<body> | u.<cmd>.<body> | i.<rid>.<body> ping | o.<hb>.<body> pong | c.<body> close
+   output: surfaced packets "<type>:<cmd>:<rid|*>:<status>" joined by space (the client's own log line; rid of a surfaced ping masked) *)
+Definition parse_hb_entry (w : bytes) : option (bytes * option N) :=
+  if starts_with (str "hb:") w then
+    obind (split_eq (skipn 3 w)) (fun ac => obind (unhex (fst ac)) (fun body =>
+      if bytes_eqb (snd ac) (str "-") then Some (body, None) else option_map (fun n => (body, Some n)) (undec (snd ac))))
+  else None.
+Definition parse_item (b : bytes) : option item :=
+  match b with
+  | k :: rest =>
+      let parts := match rest with "."%byte :: r => split_on "."%byte r | _ => [] end in
+      if byte_eqb k "r"%byte then
+        match parts with [c; i; st; body] => obind (undec c) (fun c => obind (undec i) (fun i => obind (undec st) (fun st => obind (unhex body) (fun body => Some (IResp c i st body))))) | _ => None end
+      else if byte_eqb k "u"%byte then
+        match parts with [c; body] => obind (undec c) (fun c => obind (unhex body) (fun body => Some (IPush c body))) | _ => None end
+      else if byte_eqb k "i"%byte then
+        match parts with [i; body] => obind (undec i) (fun i => obind (unhex body) (fun body => Some (IPing i body))) | _ => None end
+      else if byte_eqb k "o"%byte then
+        match parts with [h; body] => obind (undec h) (fun h => obind (unhex body) (fun body => Some (IPong h body))) | _ => None end
+      else if byte_eqb k "c"%byte then
+        match parts with [body] => option_map IClose (unhex body) | _ => None end
+      else None
+  | [] => None
+  end.
+Definition surfaced_s (x : surfaced) : bytes :=
+  dec (ptype_n (sp_ty x)) ++ str ":" ++ dec (sp_cmd x) ++ str ":" ++
+  (match sp_ty x, sp_rid x with PTRequest, _ => str "*" | _, Some r => dec r | _, None => str "*" end) ++ str ":" ++
+  dec (sp_status x).
+Definition is_hb (w : bytes) : bool := starts_with (str "hb:") w.
+Definition run_wb (op : bytes) (args0 : list bytes) : bytes :=
+  let tbl := filter_map parse_hb_entry (filter is_hb args0) in
+  let parse_hb := fun body => match assoc_bytes body tbl with Some r => r | None => None end in
+  let args := filter (fun w => negb (is_hb w)) args0 in
+  match omap_all parse_item args with
+  | Some script =>
+      if bytes_eqb op (str "wb.tcp") then join sp (map (fun i => surfaced_s (tcp_surface i)) script)
+      else if bytes_eqb op (str "wb.ws") then join sp (map (fun i => surfaced_s (ws_surface parse_hb i)) script)
+      else bad
+  | None => bad
+  end.
+
 Definition run_line (line : bytes) : bytes :=
   match words line with
   | op :: args =>
@@ -598,6 +641,7 @@ Definition run_line (line : bytes) : bytes :=
       else if starts_with (str "wp.") op then run_wp op args
       else if starts_with (str "rc.") op then run_rc op args
       else if starts_with (str "ka.") op then run_ka op args
+      else if starts_with (str "wb.") op then run_wb op args
       else bad
   | [] => bad
   end.
